@@ -19,7 +19,9 @@ func NewPlanarYUVLuminanceSource(yuvData []byte,
 	dataWidth, dataHeight, left, top, width, height int,
 	reverseHorizontal bool) (LuminanceSource, error) {
 
-	if left < 0 || top < 0 || width < 0 || height < 0 || left+width > dataWidth || top+height > dataHeight {
+	// the extent tests do not form left+width / top+height: those sums wrap round for sizes near the largest int
+	if left < 0 || top < 0 || width < 0 || height < 0 ||
+		left > dataWidth || width > dataWidth-left || top > dataHeight || height > dataHeight-top {
 		return nil, errors.New("IllegalArgumentException: Crop rectangle does not fit within image data")
 	}
 
@@ -92,7 +94,7 @@ func (this *PlanarYUVLuminanceSource) IsCropSupported() bool {
 }
 
 func (this *PlanarYUVLuminanceSource) Crop(left, top, width, height int) (LuminanceSource, error) {
-	if left < 0 || top < 0 {
+	if left < 0 || top < 0 || left > this.dataWidth-this.left || top > this.dataHeight-this.top {
 		return nil, errors.New("IllegalArgumentException: Crop rectangle does not fit within image data")
 	}
 	return NewPlanarYUVLuminanceSource(
